@@ -301,15 +301,16 @@ structure BSt where
 
 def Cat.findInter (c : Cat) (id : Bytes) : Option Inter := c.inters.find? (·.id == id)
 
-/-- Interactions.Update: the value changes, the key (and the place in the order) never does -/
+/-- Interactions.Update: the value changes, the key (and the place in the order) never does;
+    no update of the code touches the tag list of an interaction either -/
 def Cat.updHttp (c : Cat) (id : Bytes) (f : HttpI → HttpI) : Cat :=
   { c with inters := c.inters.map fun i => match i with
-      | .http h => if h.id == id then .http { f h with id := h.id } else i
+      | .http h => if h.id == id then .http { f h with id := h.id, tags := h.tags } else i
       | _ => i }
 
 def Cat.updRpc (c : Cat) (id : Bytes) (f : RpcI → RpcI) : Cat :=
   { c with inters := c.inters.map fun i => match i with
-      | .rpc r => if r.id == id then .rpc { f r with id := r.id } else i
+      | .rpc r => if r.id == id then .rpc { f r with id := r.id, tags := r.tags } else i
       | _ => i }
 
 /-! ### Directive.Path / HTTPMethod / JsonRpcMethodName over the chain directive :: ancestors -/
